@@ -193,9 +193,35 @@ def run_query(backend: str, src: str):
     return r
 
 
-def observe_value(backend: str, x) -> Dict[str, Any]:
-    """ds.Select(e -> e.Muons.Select(m -> EXPR)): emitted expression (canonical leaves) and column element type."""
+def small_literals(x) -> List[int]:
+    out = set()
+
+    def walk(n):
+        if isinstance(n, list):
+            if n and n[0] == "int" and isinstance(n[1], int) and 0 <= n[1] <= 10:
+                out.add(n[1])
+            for k in n[1:]:
+                walk(k)
+
+    walk(x)
+    return sorted(out)
+
+
+def wideners(x) -> List[str]:
+    """Event-level aggregates over ANOTHER collection that are translated before the expression and whose accumulators
+    widen from the int seed to double: Sum (seed 0), a product (seed 1), and a sum seeded with each small literal of x."""
+    ws = ['e.Muons("m3").Select(lambda w: w.db()).Sum()', 'e.Muons("m3").Aggregate(1, lambda a, w: a * w.db())']
+    ws += [f'e.Muons("m3").Aggregate({z}, lambda a, w: a + w.db())' for z in small_literals(x) if z not in (0, 1)]
+    return ws
+
+
+def observe_value(backend: str, x, context: bool = False) -> Dict[str, Any]:
+    """ds.Select(e -> e.Muons.Select(m -> EXPR)): emitted expression (canonical leaves) and column element type.
+    context: the same column preceded, in one row, by unrelated widening aggregates (what the expression is and how it
+    is typed must not depend on them)."""
     src = f'ds.Select(lambda e: e.Muons("muons").Select(lambda m: {render(x, LEAF_QUERY)}))'
+    if context:
+        src = f'ds.Select(lambda e: ({", ".join(wideners(x))}, e.Muons("muons").Select(lambda m: {render(x, LEAF_QUERY)})))'
     r = run_query(backend, src)
     if r[0] == "error":
         return {"query": src, "error": r[1], "message": r[2]}
@@ -207,7 +233,13 @@ def observe_value(backend: str, x) -> Dict[str, Any]:
     d = re.search(r"std::vector<\s*([\w:]+)\s*>\s+" + re.escape(col) + r"\s*;", all_text(r[1]["files"]))
     # the count of the other collection is the only aggResult variable
     expr = re.sub(r"\baggResult\d+\b", "@count", canon(expr))
-    return {"query": src, "expr": expr, "type": d.group(1) if d else "?"}
+    out = {"query": src, "expr": expr, "type": d.group(1) if d else "?"}
+    if context:
+        # the accumulator of the count leaf (seed 0, + 1 per element) stays an int whatever came before it
+        accs = re.findall(r"^\s*([\w:]+)\s+(aggResult\d+)\s*\((.*)\);\s*$", text, flags=re.M)
+        used = set(re.findall(r"\baggResult\d+\b", m.group(2)))
+        out["count_acc_types"] = sorted({t for t, n, _ in accs if n in used})
+    return out
 
 
 def observe_ifexp(backend: str, t, b, o) -> Dict[str, Any]:
@@ -525,6 +557,28 @@ def check(tier: str, seed: int, t0: float, build: core.BuildStatus) -> int:
             if listed_only:
                 queue_oracle("value", backend, x, obs, obs["expr"], obs["type"], {"replay": replay})
 
+    # ---- 1b. the same expressions after unrelated widening aggregates in the same row ----
+    ctx_rows = [r for r in table_rows() if r["cls"] in ("binop", "unary", "compare") and (small_literals(r["expr"]) or contains(r["expr"], lambda n: n == ["leaf", "count"]))]
+    if not thorough:
+        ctx_rows = [r for i, r in enumerate(ctx_rows) if i % 3 == seed % 3]
+    for row in ctx_rows:
+        x = row["expr"]
+        bump("context")
+        for backend in backends:
+            iso = observe_value(backend, x)
+            if "error" in iso:
+                continue
+            ctx = observe_value(backend, x, context=True)
+            oc.evaluations += 1
+            replay = {"kind": "context", "backend": backend, "expr": x, "query": ctx["query"], "label": row["label"], "isolated_query": iso["query"],
+                      "isolated": {k: v for k, v in iso.items() if k != "query"}, "in_context": {k: v for k, v in ctx.items() if k != "query"}}
+            if "error" in ctx:
+                viol("context-dependent", f"{render(x, LEAF_QUERY)} is translated alone but refused on {backend} after unrelated aggregates in the same row ({ctx['error']})", replay)
+            elif (ctx["expr"], ctx["type"]) != (iso["expr"], iso["type"]) or [t for t in ctx["count_acc_types"] if t != "int"]:
+                viol("context-dependent", f"{render(x, LEAF_QUERY)} on {backend}: alone it is emitted as {iso['expr']} : {iso['type']}, after unrelated widening aggregates in the same row as {ctx['expr']} : {ctx['type']} (count accumulators {ctx['count_acc_types']})", replay)
+            else:
+                oc.traces_validated_against_impl += 1
+
     # ---- 2. conditionals ----
     arms = list(KINDS.items()) + [("int_method", ["leaf", "it"]), ("wide_literal", ["int", 2**32])]
     tests = [["cmp", "Gt", ["leaf", "it"], ["int", 2]], ["leaf", "it"], ["un", "Not", ["cmp", "Lt", ["leaf", "db"], ["int", 3]]]]
@@ -727,6 +781,13 @@ def replay(path: str, build: core.BuildStatus) -> int:
                         print(f"  sample {s}: generated {res[si][1]}  python {pv!r}")
                         if not same_number(pv, res[si][1], tol) or not type_ok(py_type(x), obs["type"]):
                             bad = True
+        elif kind == "context":
+            x = data["expr"]
+            iso, ctx = observe_value(backend, x), observe_value(backend, x, context=True)
+            print("query:", ctx["query"])
+            print("alone:", {k: v for k, v in iso.items() if k != "query"})
+            print("in context:", {k: v for k, v in ctx.items() if k != "query"})
+            bad = "error" not in iso and ("error" in ctx or (ctx["expr"], ctx["type"]) != (iso["expr"], iso["type"]) or bool([t for t in ctx["count_acc_types"] if t != "int"]))
         elif kind == "ifexp":
             obs = observe_ifexp(backend, data["test"], data["body"], data["orelse"])
             print("query:", obs["query"])
